@@ -515,6 +515,10 @@ macro_rules! observe_element {
     }};
 }
 
+/// Content with this prefix makes the streaming handler fail after its first pieces (only when the
+/// spec's `streaming` flag is on; otherwise it is ordinary content).
+pub const FAILING_STREAM_PREFIX: &str = "\u{1}SF";
+
 /// A streaming handler that writes `s` in pieces: an empty piece, the first half as a string, the
 /// rest as UTF-8 chunks split after its first byte (inside a character if it is multi-byte).
 fn streamer(s: &str, html: bool) -> Box<dyn lol_html::html_content::StreamingHandler + Send> {
@@ -524,9 +528,15 @@ fn streamer(s: &str, html: bool) -> Box<dyn lol_html::html_content::StreamingHan
         let mid = (0..=s.len() / 2).rev().find(|i| s.is_char_boundary(*i)).unwrap_or(0);
         sink.write_str("", c);
         sink.write_str(&s[..mid], c);
+        if s.starts_with(FAILING_STREAM_PREFIX) {
+            // a streaming handler that fails after it has written something
+            return Err("injected streaming handler failure".into());
+        }
         let rest = &s.as_bytes()[mid..];
         if rest.len() >= 2 {
             sink.write_utf8_chunk(&rest[..1], c).map_err(|e| e.to_string())?;
+            // an empty chunk while a character may be incomplete
+            sink.write_utf8_chunk(&[], c).map_err(|e| e.to_string())?;
             sink.write_utf8_chunk(&rest[1..], c).map_err(|e| e.to_string())?;
         } else {
             sink.write_utf8_chunk(rest, c).map_err(|e| e.to_string())?;
@@ -886,13 +896,25 @@ macro_rules! make_builder {
                     .with_max_allowed_memory_usage(max)
                     .with_preallocated_parsing_buffer_size(pre);
             }
-            settings
-                .with_encoding(AsciiCompatibleEncoding::new(p.encoding).expect("ascii-compatible"))
-                .with_memory_settings(ms)
-                .with_strict(cfg.strict)
-                .with_enable_esi_tags(cfg.esi)
-                .with_adjust_charset_on_meta_tag(cfg.adjust_charset)
-                .with_graceful_bail_out_on_content_handler_error(cfg.graceful_handler)
+            // the builder calls are order-independent by contract: both orders are used
+            let enc = AsciiCompatibleEncoding::new(p.encoding).expect("ascii-compatible");
+            if cfg.handlers.len() % 2 == 1 {
+                settings
+                    .with_graceful_bail_out_on_content_handler_error(cfg.graceful_handler)
+                    .with_adjust_charset_on_meta_tag(cfg.adjust_charset)
+                    .with_enable_esi_tags(cfg.esi)
+                    .with_strict(cfg.strict)
+                    .with_memory_settings(ms)
+                    .with_encoding(enc)
+            } else {
+                settings
+                    .with_encoding(enc)
+                    .with_memory_settings(ms)
+                    .with_strict(cfg.strict)
+                    .with_enable_esi_tags(cfg.esi)
+                    .with_adjust_charset_on_meta_tag(cfg.adjust_charset)
+                    .with_graceful_bail_out_on_content_handler_error(cfg.graceful_handler)
+            }
         }
     };
 }
